@@ -1014,7 +1014,7 @@ fn regions_of(sqe: &Sqe) -> Vec<Region> {
             }
         }
         OP_ACCEPT => {
-            if sqe.addr != 0 {
+            if sqe.addr != 0 && sqe.off != 0 {
                 // addr = sockaddr, addr2(off) = socklen_t*
                 let lenp = sqe.off;
                 v.push(region("addrlen", lenp, 4));
